@@ -257,7 +257,8 @@ theorem defaultRow_eq_col (slab : List α) (d stride a q : Nat) (hq : q < stride
   omega
 
 /-- One outer slab: the walk with a jump that lands on the next block computes S's reduction of the
-    axis below the prefix `pre`. The Go code has `jump = stride`. -/
+    axis below the prefix `pre`. The Go code has `jump = (dimSize-1)*stride` (before the repair of finding
+    F40 it had `jump = stride`, which satisfies `hj` only for one block per slab or an extent of 2). -/
 theorem reduceDefaultSlab_spec [Inhabited α] (f : α → α → α) (pre : List Nat) (d : Nat) (rest : List Nat) (jump : Nat)
     (slab : List α) (hs : 1 ≤ prodN rest)
     (hj : ∀ p, p < prodN pre → p * (prodN rest + jump) = p * (d * prodN rest))
@@ -294,6 +295,25 @@ theorem reduceDefaultK_spec' [Inhabited α] (f : α → α → α) (d0 : Nat) (p
   have h2 : (i + 1) * prodN (pre ++ d :: rest) = i * prodN (pre ++ d :: rest) + prodN (pre ++ d :: rest) := by
     rw [Nat.add_mul, Nat.one_mul]
   simp only [List.length_take, List.length_drop]
+  omega
+
+/-- every read of the walk stays inside its slab when the jump lands on the next block -/
+theorem defaultOk_of_jump (dataLen d0 P d stride jump : Nat) (hs : 1 ≤ stride) (hd : 1 ≤ d)
+    (hj : stride + jump = d * stride) (hlen : d0 * (P * (d * stride)) ≤ dataLen) :
+    defaultOk dataLen d0 d (P * (d * stride)) stride (P * stride) jump = true := by
+  unfold defaultOk
+  simp only [Bool.and_eq_true, decide_eq_true_eq, Bool.or_eq_true, List.all_eq_true]
+  refine ⟨hlen, Or.inr ⟨?_, hd⟩⟩
+  rw [walk_blocks stride jump hs P 0]
+  intro s hsm k hk
+  have hk : k < d := List.mem_range.1 hk
+  simp only [List.mem_flatMap, List.mem_map, List.mem_range] at hsm
+  obtain ⟨p, hp, q, hq, rfl⟩ := hsm
+  rw [hj, Nat.zero_add]
+  have h1 : (k + 1) * stride ≤ d * stride := Nat.mul_le_mul_right stride hk
+  have h2 : (k + 1) * stride = k * stride + stride := by rw [Nat.add_mul, Nat.one_mul]
+  have h3 : (p + 1) * (d * stride) ≤ P * (d * stride) := Nat.mul_le_mul_right _ hp
+  have h4 : (p + 1) * (d * stride) = p * (d * stride) + d * stride := by rw [Nat.add_mul, Nat.one_mul]
   omega
 
 end
